@@ -4,7 +4,9 @@ import Ecal.Gen.C17
 /-!
 Model driver of C17. Payloads (space separated, strings hex encoded, `-` = empty):
 
-* `P <a> <b>` — the path primitives: result `<Clean a> <Join a b> <Rel a b | ERR>`.
+* `P <a> <b>` — the path primitives: result `<Clean a> <Join a b> <Rel a b | ERR>`, computed by the
+  BYTE-level `cleanBytes` / `joinBytes` / `relBytes`; R / I / N / T / U / V lines run `resolveBytes`
+  (proved equal to the element-level functions of the property theorems, Lemmas/PathBytes.lean).
 * `R|I|N <cwd> <files> <root> <rootpos> <pre|~> <depth> <alphabet>` — `Resolve` (directly / through
   an `import` statement / through an import with the provider's default locator): the paths are
   `pre` followed by every sequence of exactly `depth` alphabet elements, joined by `/` (`~` = no
@@ -14,16 +16,17 @@ Model driver of C17. Payloads (space separated, strings hex encoded, `-` = empty
   `/^2/^1/^B` for `B` (the harness substitutes the real directory, which has at least two ancestors).
   Result per path `<opened>=<result>`, comma separated: `<opened>` = the strings that reached the
   open (hex, `|` separated, a leading `B` / parent / grandparent of `B` written `@B` / `@1` / `@2`),
-  `-` if none; `<result>` = `rej` / `relerr` (R lines: no open, the locator's own rejection / the error
-  of `Rel`), `E` (error), `I<n>` (content of file n, inside the root), `O<n>` (content of file n,
+  `-` if none; `<result>` = `rej` (R lines: an error and no open — the locator's own rejection or the error of `Rel`, which
+  the tie does not tell apart), `E` (error), `I<n>` (content of file n, inside the root), `O<n>` (content of file n,
   OUTSIDE the root). `rootpos` is not used by the model: it walks the root string.
   A lower case kind letter: the tree under test has no `c17.open` instrumentation point; `<opened>`
   is then `?` and every error `E`.
 * `J <cwd> <files+modules> <root> <rootpos> <srcname> <path>` — the import statement in a program
   parsed under `srcname`; file entries `pos>inner` are modules importing `inner`. Model:
   `importEval` instantiated with the facts regenerated from rt_general.go.
-* `T|U <cwd> <files> <dir|~> <modelroot> <rootpos> <pre|~> <depth> <alphabet>` — the command line
-  tool configured with `dir` programmatically / through `ParseArgs` (`~`: no `-dir`); the model
+* `T|U|V <cwd> <files> <dir|~> <modelroot> <rootpos> <pre|~> <depth> <alphabet>` — the command line
+  tool configured with `dir` programmatically (T) / the whole `CLIInterpreter.Interpret(false)` over
+  `ecal run [-dir dir] <entry>` (U) or with the import typed at the console (V) (`~`: no `-dir`); the model
   resolves with `toolRoot … modelroot` (`modelroot = dir` except for a symlinked root, where it is
   the link's target and `<opened>` is `?`, and without `-dir`, where it is the working directory).
 -/
@@ -86,7 +89,7 @@ def findIdx (files : List Pos) (p : Pos) : Option Nat :=
 
 /-- `(opened, result)`; `detail`: separate the locator's rejection from the error of `Rel` -/
 def outcome (cwd : Pos) (files : List Pos) (detail : Bool) (root p : Str) : List Str × String :=
-  match resolve root p with
+  match resolveBytes root p with
   | .opened q =>
     let pos := walkStr cwd q
     match findIdx files pos with
@@ -95,7 +98,7 @@ def outcome (cwd : Pos) (files : List Pos) (detail : Bool) (root p : Str) : List
       let rootPos := walkStr cwd root
       ([q], (if isPrefixOf rootPos pos then "I" else "O") ++ toString i)
   | .rejected => ([], if detail then "rej" else "E")
-  | .relError => ([], if detail then "relerr" else "E")
+  | .relError => ([], if detail then "rej" else "E")   -- the tie does not tell the two errors apart
 
 def fnv (s : Str) : UInt32 := s.foldl (fun h c => (h ^^^ c.toUInt32) * 16777619) 2166136261
 
@@ -165,7 +168,7 @@ def runCase (payload : String) : String :=
   | ["P", a, b] =>
     match hexDecode a, hexDecode b with
     | some a, some b =>
-      hexEnc (cleanStr a) ++ " " ++ hexEnc (joinStr a b) ++ " " ++ optStr (relStr a b) ++ "\tnt=1"
+      hexEnc (cleanBytes a) ++ " " ++ hexEnc (joinBytes a b) ++ " " ++ optStr (relBytes a b) ++ "\tnt=1"
     | _, _ => "bad-payload"
   | [kind, cwd, files, root, _rootpos, src, path] =>
     if kind ≠ "J" ∧ kind ≠ "j" then "bad-payload" else
@@ -179,10 +182,10 @@ def runCase (payload : String) : String :=
       obs (kind = "J") false (r.2, res) ++ (if res ≠ "E" then "\tnt=1" else "")
     | _, _, _, _, _ => "bad-payload"
   | [kind, cwd, files, dir, modelroot, _rootpos, pre, depth, alpha] =>
-    if kind ≠ "T" ∧ kind ≠ "t" ∧ kind ≠ "U" ∧ kind ≠ "u" then "bad-payload" else
+    if kind ≠ "T" ∧ kind ≠ "t" ∧ kind ≠ "U" ∧ kind ≠ "u" ∧ kind ≠ "V" ∧ kind ≠ "v" then "bad-payload" else
     match hexDecode modelroot with
     | some r =>
-      let ev := (kind = "T" ∨ kind = "U") ∧ (dir = modelroot ∨ dir = "~")
+      let ev := (kind = "T" ∨ kind = "U" ∨ kind = "V") ∧ (dir = modelroot ∨ dir = "~")
       runResolve ev false cwd files (hexEnc (toolRoot Ecal.Gen.C17.toolRootIsDir (fun d => d) r)) pre depth alpha
     | none => "bad-payload"
   | [kind, cwd, files, root, _rootpos, pre, depth, alpha] =>
